@@ -4,6 +4,7 @@ import (
 	"fmt"
 	"math"
 	"reflect"
+	"strings"
 	"unsafe"
 
 	"github.com/philpearl/avro"
@@ -45,6 +46,22 @@ func c05Schemas() []c05Schema {
 			return b
 		}
 	}
+	un := func(names ...string) avro.Schema {
+		u := avro.Schema{Type: "union"}
+		for _, n := range names {
+			u.Union = append(u.Union, prim(n))
+		}
+		return u
+	}
+	sel := func(branch int64, f func(string, bool) []byte) func(string, bool) []byte {
+		return func(k string, out bool) []byte {
+			b := f(k, out)
+			if b == nil {
+				return nil
+			}
+			return append(specVarint(branch), b...)
+		}
+	}
 	rec := avro.Schema{Type: "record", Object: &avro.SchemaObject{Name: "Inner", Fields: []avro.SchemaRecordField{{Name: "a", Type: prim("long")}}}}
 	return []c05Schema{
 		{"null", prim("null"), simple([]byte{})},
@@ -64,6 +81,28 @@ func c05Schemas() []c05Schema {
 		{"map<long>", avro.Schema{Type: "map", Object: &avro.SchemaObject{Values: prim("long")}}, simple([]byte{2, 2, 'k', 6, 0})},
 		{"union[null,long]", avro.Schema{Type: "union", Union: []avro.Schema{prim("null"), prim("long")}}, simple([]byte{2, 10})},
 		{"union[string,null]", avro.Schema{Type: "union", Union: []avro.Schema{prim("string"), prim("null")}}, simple([]byte{0, 2, 'z'})},
+		// the null branch of a nullable union over narrow fields: nothing may be stored
+		{"union[null,long]/null", un("null", "long"), simple([]byte{0})},
+		{"union[long,null]/null", un("long", "null"), simple([]byte{2})},
+		{"union[null,boolean]/null", un("null", "boolean"), simple([]byte{0})},
+		{"union[null,float]/null", un("null", "float"), simple([]byte{0})},
+		{"union[null,int]/null", un("null", "int"), simple([]byte{0})},
+		{"union[null,fixed4]/null", avro.Schema{Type: "union", Union: []avro.Schema{prim("null"), fixedSchema(4)}}, simple([]byte{0})},
+		{"union[null,bytes]/null", un("null", "bytes"), simple([]byte{0})},
+		{"union[null,string]/null", un("null", "string"), simple([]byte{0})},
+		// general unions (three branches, or two non-null ones): every branch must fit the Go type
+		{"union[null,int,long]/long", un("null", "int", "long"), sel(2, vint)},
+		{"union[null,int,long]/int", un("null", "int", "long"), sel(1, vint)},
+		{"union[null,int,long]/null", un("null", "int", "long"), simple([]byte{0})},
+		{"union[int,long]/long", un("int", "long"), sel(1, vint)},
+		{"union[null,long,string]/long", un("null", "long", "string"), sel(1, vint)},
+		{"union[null,long,string]/string", un("null", "long", "string"), simple([]byte{4, 4, 'h', 'i'})},
+		{"union[long,string]/string", un("long", "string"), simple([]byte{2, 4, 'h', 'i'})},
+		{"union[int,double]/double", un("int", "double"), simple([]byte{2, 0, 0, 0, 0, 0, 0, 240, 63})},
+		{"union[int,double]/int", un("int", "double"), sel(0, vint)},
+		{"union[float,double]/double", un("float", "double"), simple([]byte{2, 0, 0, 0, 0, 0, 0, 240, 63})},
+		{"union[string,bytes]/bytes", un("string", "bytes"), simple([]byte{2, 4, 9, 8})},
+		{"union[null,string,fixed4]/fixed", avro.Schema{Type: "union", Union: []avro.Schema{prim("null"), prim("string"), fixedSchema(4)}}, simple([]byte{4, 1, 2, 3, 4})},
 		{"bare-array", prim("array"), simple(nil)},
 		{"bare-map", prim("map"), simple(nil)},
 		{"bare-fixed", prim("fixed"), simple(nil)},
@@ -115,6 +154,25 @@ func c05Positions(t reflect.Type) []struct {
 }
 
 var canary = []byte{0xA5, 0x5A, 0xC3, 0x3C}
+
+func pointerFree(t reflect.Type) bool {
+	switch t.Kind() {
+	case reflect.Bool, reflect.Int8, reflect.Int16, reflect.Int32, reflect.Int64, reflect.Int,
+		reflect.Uint8, reflect.Uint16, reflect.Uint32, reflect.Uint64, reflect.Uint, reflect.Uintptr,
+		reflect.Float32, reflect.Float64, reflect.Complex64, reflect.Complex128:
+		return true
+	case reflect.Array:
+		return pointerFree(t.Elem())
+	case reflect.Struct:
+		for i := 0; i < t.NumField(); i++ {
+			if !pointerFree(t.Field(i).Type) {
+				return false
+			}
+		}
+		return true
+	}
+	return false
+}
 
 func runC05(r *Run) {
 	schemas := c05Schemas()
@@ -186,6 +244,12 @@ func runC05(r *Run) {
 					}
 					fill(dst.Elem().Field(0))
 					fill(dst.Elem().Field(4))
+					// a null branch stores nothing at all (the model returns the destination
+					// unchanged): pointer-free destinations are pre-filled and must stay so
+					nullInto := strings.HasSuffix(sc.name, "/null") && pos.name == "alone" && pointerFree(pos.t)
+					if nullInto {
+						fill(dst.Elem().Field(2))
+					}
 					dst.Elem().Field(1).SetInt(0x1122334455667788)
 					dst.Elem().Field(3).SetInt(0x5566)
 					res := func() (cls string) {
@@ -217,6 +281,9 @@ func runC05(r *Run) {
 					}
 					chk(dst.Elem().Field(0))
 					chk(dst.Elem().Field(4))
+					if nullInto && res == "ok" {
+						chk(dst.Elem().Field(2))
+					}
 					if dst.Elem().Field(1).Int() != 0x1122334455667788 || dst.Elem().Field(3).Int() != 0x5566 {
 						intact = false
 					}
